@@ -180,6 +180,11 @@ class Point:
       if o == '-' and x == 'pos' and ny is not None and ny <= 0:
         return 'pos'
       return None
+    if o in ('%', '//'):
+      nx, ny = _as_num(x), _as_num(y)
+      if nx is not None and ny not in (None, 0):
+        return ('num', nx % ny if o == '%' else nx // ny)
+      return None
     if o == '**':
       if x == 'pos':
         return 'pos'
@@ -233,6 +238,11 @@ class Point:
       return self._bin('**', args[0], args[1])
     if short in ('multiply', 'divide', 'true_divide', 'add', 'subtract') and len(args) == 2:
       return self._bin({'multiply': '*', 'divide': '/', 'true_divide': '/', 'add': '+', 'subtract': '-'}[short], args[0], args[1])
+    if short in ('mod', 'remainder', 'floor_divide') and len(args) == 2:
+      return self._bin('//' if short == 'floor_divide' else '%', args[0], args[1])
+    if short in ('equal', 'not_equal', 'greater', 'greater_equal', 'less', 'less_equal') and len(args) == 2:
+      o = {'equal': '==', 'not_equal': '!=', 'greater': '>', 'greater_equal': '>=', 'less': '<', 'less_equal': '<='}[short]
+      return self._cmp(o, self.ival(args[0]), self.ival(args[1]))
     if short == 'logical_not' and len(args) == 1:
       x = self.ival(args[0])
       return ('bool', not _as_num(x)) if (_bool(x) or _num(x)) else None
